@@ -17,6 +17,11 @@
 (*   CF x (a conc block with a slow assignment to local x and a failing    *)
 (*        call: x is assigned, then the block - and the rule - fails)      *)
 (*   WI a (assign injected field a)              RI a (read injected a)    *)
+(*   WP g / RP g (assign / read the PLAIN name g.  Whether g is a local or *)
+(*        injected data is a fact about one CALL: in a call that injects g *)
+(*        (as a pointer) it is the call's shared cell, which the caller    *)
+(*        sees afterwards; in a call that does not, it is a local of the   *)
+(*        execution - the same statement of the same rule set either way)  *)
 (* Every execution e of a rule (whatever model, call, goroutine or pool    *)
 (* instance runs it) has its own store, initially empty.  A read of a      *)
 (* local that this execution has not assigned is undefined: the execution  *)
@@ -28,8 +33,9 @@ EXTENDS Integers, Sequences, FiniteSets, TLC
 VARIABLES prog,    \* [rule name -> Seq([k, name])]
           ex,      \* [execution id -> [rule, req, pc, store, ended]]
           inj,     \* [injected field -> value]
+          pin,     \* [request -> value of the plain name it injected]: the requests that inject the plain name
           lh       \* history (model checking only)
-lvars == <<prog, ex, inj, lh>>
+lvars == <<prog, ex, inj, pin, lh>>
 
 NextOp(e) == prog[ex[e].rule][ex[e].pc + 1]
 HasNext(e) == ex[e].pc < Len(prog[ex[e].rule])
@@ -37,15 +43,24 @@ Stuck(e) == /\ ~ex[e].ended
             /\ \/ ex[e].failed
                \/ /\ HasNext(e) /\ NextOp(e).k \in {"R", "RM"}
                   /\ NextOp(e).name \notin DOMAIN ex[e].store
+               \/ /\ HasNext(e) /\ NextOp(e).k = "RP" /\ ex[e].req \notin DOMAIN pin
+                  /\ NextOp(e).name \notin DOMAIN ex[e].store
 
 LBeginCore(p) ==
-  /\ prog' = p /\ ex' = <<>> /\ inj' = <<>>
+  /\ prog' = p /\ ex' = <<>> /\ inj' = <<>> /\ pin' = <<>>
+
+\* request q injects the plain name (before any of its rules runs); the cell starts at 0
+LPinCore(q) ==
+  /\ q \notin DOMAIN pin
+  /\ \A e \in DOMAIN ex : ex[e].req # q
+  /\ pin' = (q :> 0) @@ pin
+  /\ UNCHANGED <<prog, ex, inj>>
 
 EStartCore(e, r, q) ==
   /\ e \notin DOMAIN ex
   /\ r \in DOMAIN prog
   /\ ex' = (e :> [rule |-> r, req |-> q, pc |-> 0, store |-> <<>>, ended |-> FALSE, failed |-> FALSE]) @@ ex
-  /\ UNCHANGED <<prog, inj>>
+  /\ UNCHANGED <<prog, inj, pin>>
 
 \* operation number i of execution e was performed and produced / observed val
 EOpCore(e, i, val) ==
@@ -53,36 +68,50 @@ EOpCore(e, i, val) ==
   /\ LET op == NextOp(e) IN
      CASE op.k \in {"W", "FR", "CW", "WF", "WM"}
                       -> /\ ex' = [ex EXCEPT ![e].pc = i, ![e].store = (op.name :> val) @@ @]
-                         /\ UNCHANGED inj
+                         /\ UNCHANGED <<inj, pin>>
        [] op.k \in {"R", "RM"}
                       -> /\ op.name \in DOMAIN ex[e].store
                          /\ val = ex[e].store[op.name]
                          /\ ex' = [ex EXCEPT ![e].pc = i]
-                         /\ UNCHANGED inj
+                         /\ UNCHANGED <<inj, pin>>
        [] op.k \in {"H", "T"}
-                      -> /\ ex' = [ex EXCEPT ![e].pc = i] /\ UNCHANGED inj
+                      -> /\ ex' = [ex EXCEPT ![e].pc = i] /\ UNCHANGED <<inj, pin>>
        [] op.k = "CF" -> /\ ex' = [ex EXCEPT ![e].pc = i, ![e].store = (op.name :> val) @@ @, ![e].failed = TRUE]
-                         /\ UNCHANGED inj
+                         /\ UNCHANGED <<inj, pin>>
        [] op.k = "P"  -> /\ ex' = [ex EXCEPT ![e].pc = i, ![e].failed = TRUE]
-                         /\ UNCHANGED inj
+                         /\ UNCHANGED <<inj, pin>>
        [] op.k = "WI" -> /\ ex' = [ex EXCEPT ![e].pc = i]
                          /\ inj' = (op.name :> val) @@ inj
+                         /\ UNCHANGED pin
        [] op.k = "RI" -> /\ val = (IF op.name \in DOMAIN inj THEN inj[op.name] ELSE 0)
                          /\ ex' = [ex EXCEPT ![e].pc = i]
-                         /\ UNCHANGED inj
+                         /\ UNCHANGED <<inj, pin>>
+       [] op.k = "WP" -> IF ex[e].req \in DOMAIN pin
+                         THEN /\ ex' = [ex EXCEPT ![e].pc = i]
+                              /\ pin' = [pin EXCEPT ![ex[e].req] = val]
+                              /\ UNCHANGED inj
+                         ELSE /\ ex' = [ex EXCEPT ![e].pc = i, ![e].store = (op.name :> val) @@ @]
+                              /\ UNCHANGED <<inj, pin>>
+       [] op.k = "RP" -> /\ IF ex[e].req \in DOMAIN pin
+                            THEN val = pin[ex[e].req]
+                            ELSE op.name \in DOMAIN ex[e].store /\ val = ex[e].store[op.name]
+                         /\ ex' = [ex EXCEPT ![e].pc = i]
+                         /\ UNCHANGED <<inj, pin>>
   /\ UNCHANGED prog
 
 EEndCore(e) ==
   /\ e \in DOMAIN ex /\ ~ex[e].ended /\ ~ex[e].failed /\ ~HasNext(e)
   /\ ex' = [ex EXCEPT ![e].ended = TRUE]
-  /\ UNCHANGED <<prog, inj>>
+  /\ UNCHANGED <<prog, inj, pin>>
 
 \* request q returned: all its executions are over (ended, or stopped at an
-\* undefined read) and it reports an error iff one of them stopped
-LReturnCore(q, err) ==
+\* undefined read) and it reports an error iff one of them stopped; gpv: what
+\* the caller finds in the plain name it injected (0 when it injected none)
+LReturnCore(q, err, gpv) ==
   /\ \A e \in DOMAIN ex : ex[e].req = q => (ex[e].ended \/ Stuck(e))
   /\ err = (\E e \in DOMAIN ex : ex[e].req = q /\ Stuck(e))
-  /\ UNCHANGED <<prog, ex, inj>>
+  /\ gpv = (IF q \in DOMAIN pin THEN pin[q] ELSE 0)
+  /\ UNCHANGED <<prog, ex, inj, pin>>
 
 -----------------------------------------------------------------------------
 (* Model checking: bounded programs, any number (<= MaxEx) of executions of *)
@@ -91,10 +120,11 @@ CONSTANTS LProgs,    \* set of candidate programs (sequences of ops)
           LRules,    \* rule names
           MaxEx
 
-LInit == /\ prog \in [LRules -> LProgs] /\ ex = <<>> /\ inj = <<>> /\ lh = <<>>
+LInit == /\ prog \in [LRules -> LProgs] /\ ex = <<>> /\ inj = <<>> /\ pin = <<>> /\ lh = <<>>
 
 Fresh(e, i) == e * 10 + i
 LNext ==
+  \/ LPinCore(1) /\ UNCHANGED lh
   \/ \E e \in 1..MaxEx, r \in LRules :
         /\ e = Cardinality(DOMAIN ex) + 1
         /\ EStartCore(e, r, 1) /\ UNCHANGED lh
@@ -104,10 +134,14 @@ LNext ==
                          (IF NextOp(e).k = "R" /\ NextOp(e).name \in DOMAIN ex[e].store
                           THEN {ex[e].store[NextOp(e).name]} ELSE {}) \cup
                          (IF NextOp(e).k = "RI"
-                          THEN {IF NextOp(e).name \in DOMAIN inj THEN inj[NextOp(e).name] ELSE 0} ELSE {}) :
+                          THEN {IF NextOp(e).name \in DOMAIN inj THEN inj[NextOp(e).name] ELSE 0} ELSE {}) \cup
+                         (IF NextOp(e).k = "RP"
+                          THEN (IF 1 \in DOMAIN pin THEN {pin[1]}
+                                ELSE IF NextOp(e).name \in DOMAIN ex[e].store THEN {ex[e].store[NextOp(e).name]} ELSE {})
+                          ELSE {}) :
                 /\ EOpCore(e, ex[e].pc + 1, val)
                 /\ lh' = Append(lh, [e |-> e, i |-> ex[e].pc + 1, k |-> NextOp(e).k,
-                                     name |-> NextOp(e).name, val |-> val])
+                                     name |-> NextOp(e).name, val |-> val, pinned |-> 1 \in DOMAIN pin])
         \/ EEndCore(e) /\ UNCHANGED lh
 LSpec == LInit /\ [][LNext]_lvars
 
@@ -127,4 +161,16 @@ SharedInjected ==
      \/ \E w \in 1..(j-1) :
           /\ lh[w].k = "WI" /\ lh[w].name = lh[j].name /\ lh[w].val = lh[j].val
           /\ \A m \in (w+1)..(j-1) : ~(lh[m].k = "WI" /\ lh[m].name = lh[j].name)
+\* A plain name: in a call that injects it, a read observes the latest assignment by ANY execution of the call
+\* (0 before the first); in a call that does not, only the reader's own latest assignment.
+PlainNames ==
+  \A j \in DOMAIN lh : lh[j].k = "RP" =>
+     IF lh[j].pinned
+     THEN \/ /\ lh[j].val = 0 /\ \A w \in 1..(j-1) : ~(lh[w].k = "WP" /\ lh[w].pinned)
+          \/ \E w \in 1..(j-1) :
+               /\ lh[w].k = "WP" /\ lh[w].pinned /\ lh[w].val = lh[j].val
+               /\ \A m \in (w+1)..(j-1) : ~(lh[m].k = "WP" /\ lh[m].pinned)
+     ELSE \E w \in 1..(j-1) :
+               /\ lh[w].k = "WP" /\ lh[w].e = lh[j].e /\ lh[w].val = lh[j].val
+               /\ \A m \in (w+1)..(j-1) : ~(lh[m].k = "WP" /\ lh[m].e = lh[j].e)
 =============================================================================
